@@ -307,7 +307,7 @@ func (c *checker) evalExhaustive(caseID string, ps []policySpec, paths []string,
 func TestVerif_C03_Exhaustive(t *testing.T) {
 	seed := kit.Seed(c03DefaultSeed)
 	shard, shards := kit.Shard()
-	r := kit.NewResult(t, "c03-exhaustive", seed, "alphabet {a,b}, '+' segments, <=3 segments (thorough: <=4 for pairs/triples), optional '/', '*' or '/*' suffix (144 / 468 patterns); request paths over {a,b,ab} up to 4 (5) segments with and without trailing slash (240 / 726); every unordered pattern pair; a case = one policy set (single pattern x capability subsets, pattern pair, pattern triple, or one pattern in 2-3 policies with capability subsets from {deny,read,list,update,create,sudo}) evaluated on all paths and operations with empty data; non-trivial = some path is matched by >=2 patterns (priority decides) or the pattern is contributed by >=2 policies (merge decides)")
+	r := kit.NewResult(t, "c03-exhaustive", seed, "alphabet {a,b}, '+' segments, <=3 segments (thorough: <=4 for pairs/triples), optional '/', '*' or '/*' suffix (144 / 441 patterns); request paths over {a,b,ab} up to 4 (5) segments with and without trailing slash (240 / 726); every unordered pattern pair; a case = one policy set (single pattern x capability subsets, pattern pair, pattern triple, or one pattern in 2-3 policies with capability subsets from {deny,read,list,update,create,sudo}) evaluated on all paths and operations with empty data; non-trivial = some path is matched by >=2 patterns (priority decides) or the pattern is contributed by >=2 policies (merge decides)")
 	defer r.Write(t)
 	for _, a := range refAssumptions {
 		r.Assume(a)
@@ -694,7 +694,7 @@ func TestVerif_C03_Random(t *testing.T) {
 		r.Assume(a)
 	}
 	c := &checker{r: r}
-	cases := kit.N(6000, 30000)
+	cases := kit.N(6000, 20000)
 	for k := 0; k < cases; k++ {
 		gk := k*shards + shard
 		id := fmt.Sprintf("rand:%d", gk)
@@ -868,7 +868,7 @@ func TestVerif_C03_SharedPolicies(t *testing.T) {
 		r.Assume(a)
 	}
 	c := &checker{r: r}
-	for k := 0; k < kit.N(6000, 24000); k++ {
+	for k := 0; k < kit.N(6000, 12000); k++ {
 		gk := k*shards + shard
 		id := fmt.Sprintf("shared:%d", gk)
 		if !kit.WantCase(id) {
